@@ -12,6 +12,7 @@ Tie to the code: `harness/src/props/c29.rs` runs the real index / `HnswIndex` an
 on the same inputs (hits, scores bit for bit, graph files), and evaluates the property
 predicates below on the implementation alone with brute-force neighbours.
 -/
+set_option linter.unusedSectionVars false
 namespace SL.Vec
 open Scalar
 
@@ -553,20 +554,55 @@ theorem segment_candidates_complete_partial [TltLaws S] (rt : Bool) (c : Clause 
   rw [List.mem_filter]
   exact ⟨List.mem_range.mpr (vecAt_lt hvec), hvec⟩
 
-/-! ## 6. compaction drops the vectors (mechanism of the defect) -/
+/-! ## 6. compaction never drops vectors
 
-/-- after `compact()` of an index with more than one segment no document has a vector, so
-no vector-only request returns anything (the property would require the same hits as before
-compaction; see `compact_witness`) -/
-theorem compact_drops_vectors (p : Plan κ S) (segs : List (Segment κ S)) (limit : Nat)
-    (h : 1 < segs.length) : searchVectorOnly p (compactSegs segs) limit = [] := by
-  cases hs : searchVectorOnly p (compactSegs segs) limit with
+`compact()` of an index whose schema has a vector field is refused when there is anything to
+merge and is a no-op otherwise, so every request sees the same segments afterwards.  The
+legacy behaviour (re-ingest without vectors) is kept as `legacy_compact_drops_vectors` /
+`Witness.legacy_compact_witness`. -/
+
+/-- **compaction keeps the vectors**: with a vector field in the schema the segments a reader
+sees after `compact()` are the segments before it -/
+theorem compact_keeps_vectors (schema : List (VField κ)) (segs : List (Segment κ S))
+    (h : schema ≠ []) : afterCompact schema segs = segs := by
+  unfold afterCompact compact
+  split
+  · rfl
+  · have : schema.isEmpty = false := by
+      cases schema with
+      | nil => exact absurd rfl h
+      | cons a b => rfl
+    simp [this]
+
+/-- … hence every request (vector-only, hybrid, rejected) has the same outcome before and
+after `compact()` -/
+theorem compact_preserves_search (schema : List (VField κ)) (segs : List (Segment κ S))
+    (r : Req κ S) (h : schema ≠ []) :
+    searchReq schema (afterCompact schema segs) r = searchReq schema segs r := by
+  rw [compact_keeps_vectors schema segs h]
+
+/-- the call is refused exactly when there is more than one segment and a vector field -/
+theorem compact_refused_iff (schema : List (VField κ)) (segs : List (Segment κ S)) :
+    compact schema segs = none ↔ (1 < segs.length ∧ schema ≠ []) := by
+  unfold compact
+  by_cases h1 : segs.length ≤ 1
+  · simp [h1]; omega
+  · cases schema with
+    | nil => simp [h1]
+    | cons a b => simp [h1]; omega
+
+/-- **legacy mechanism of the repaired defect** (`compact.vectors-dropped`): the old
+`compact()` of more than one segment left no document with a vector, so no vector-only
+request returned anything afterwards -/
+theorem legacy_compact_drops_vectors (p : Plan κ S) (segs : List (Segment κ S)) (limit : Nat)
+    (h : 1 < segs.length) : searchVectorOnly p (legacyCompactSegs segs) limit = [] := by
+  cases hs : searchVectorOnly p (legacyCompactSegs segs) limit with
   | nil => rfl
   | cons hit rest =>
     exfalso
     obtain ⟨c, _, sg, d, raw, h1, h2, _, _, _, _, h7⟩ :=
-      vector_hits_filtered p (compactSegs segs) limit hit (by rw [hs]; simp)
-    unfold compactSegs at h1
+      vector_hits_filtered p (legacyCompactSegs segs) limit hit (by rw [hs]; simp)
+    unfold legacyCompactSegs reingest at h1
     have hn : ¬ segs.length ≤ 1 := by omega
     simp only [hn, if_false] at h1
     cases hseg : hit.seg with
@@ -695,11 +731,17 @@ def segs11 : List (Segment Nat Int) :=
   [[{ deleted := false, passFilter := true, passVFilter := true, textMatch := false, bm25 := none, vecs := [(0, [1])] }],
    [{ deleted := false, passFilter := true, passVFilter := true, textMatch := false, bm25 := none, vecs := [(0, [3])] }]]
 
-/-- **negative witness (compaction)**: the same request returns two hits before `compact()` and
-none after it -/
-theorem compact_witness :
+/-- **legacy negative witness (compaction, repaired by `01a6290`)**: the same request returned
+two hits before the old `compact()` and none after it -/
+theorem legacy_compact_witness :
     outcomeDocs (searchReq [field0] segs11 req5) = some [(0, 0), (1, 0)] ∧
-    outcomeDocs (searchReq [field0] (compactSegs segs11) req5) = some [] := by
+    outcomeDocs (searchReq [field0] (legacyCompactSegs segs11) req5) = some [] := by
+  decide
+
+/-- non-vacuity of `compact_keeps_vectors`/`compact_refused_iff`: the repaired `compact()` is
+refused on the two segments and the request still finds both documents -/
+example : (compact [field0] segs11).isNone = true ∧
+    outcomeDocs (searchReq [field0] (afterCompact [field0] segs11) req5) = some [(0, 0), (1, 0)] := by
   decide
 
 /-- non-vacuity of `wrong_dim_rejected`: a 2-dimensional query on the 1-dimensional field -/
